@@ -31,14 +31,10 @@ C++ they replace.
 Also here: `cpu_supports_bmi2_adx` (the run-time selection between the two families) returns 1 iff
 `cpuid` leaf 7 reports both BMI2 (ebx bit 8) and ADX (ebx bit 19); `cpuid` is an oracle of the state.
 
-What is NOT here: theorems for the multiplication / squaring / Montgomery-reduction routines (baseline
-and BMI2/ADX families).  Those have the same kind of model and are
-tied to the real code only by the judge: for every `asm …` operation line the interpreter runs the
-generated program on the same operands and must reproduce the real routine's output exactly
-(`Driver/Judge1.lean: judgeAsm`).  The 32-bit portable build and the AArch64 / ARMv6-M assembly are
-outside this file (see the property's `not_modelled` text).
-
-Proofs: `JediVerif/Proofs/AsmProofs.lean`.
+Multiplication, squaring and Montgomery reduction (baseline and BMI2/ADX families): the same kind of theorem, for every entry state,
+is in `Properties/C03b.lean` (proofs `Proofs/AsmMul*.lean`, `AsmMont*.lean`, `AsmSqr*.lean`).  In addition, for every `asm …` operation
+line the judge runs the generated programs on the same operands and must reproduce the real routine's output exactly
+(`Driver/Judge1.lean: judgeAsm`).  The AArch64 / ARMv6-M assembly: see the property's `not_modelled` text.
 -/
 import JediVerif.Proofs.AsmProofs
 import JediVerif.Properties.C02
